@@ -73,9 +73,9 @@ pub fn run_property(world: &World, ctx: &mut Ctx) -> Option<Value> {
 /// Grammars whose derive output did not compile (written by the driver).  A failure that is
 /// not explained by one of the `allowed` open findings is a violation of C11 / C20.
 pub fn compile_failures(ctx: &mut Ctx, allowed: &[&'static str]) -> Option<Value> {
-    let path = std::path::Path::new(crate::common::VERIF_ROOT).join("work").join("compile_failures.json");
+    let path = crate::common::work_dir().join("compile_failures.json");
     let v: Value = std::fs::read_to_string(&path).ok().and_then(|t| serde_json::from_str(&t).ok()).unwrap_or(Value::Array(vec![]));
-    let corpus: Value = std::fs::read_to_string(std::path::Path::new(crate::common::VERIF_ROOT).join("work").join("corpus.json")).ok().and_then(|t| serde_json::from_str(&t).ok()).unwrap_or(Value::Null);
+    let corpus: Value = std::fs::read_to_string(crate::common::work_dir().join("corpus.json")).ok().and_then(|t| serde_json::from_str(&t).ok()).unwrap_or(Value::Null);
     for f in v.as_array().cloned().unwrap_or_default() {
         ctx.ev.eval();
         let id = f["grammar"].as_str().unwrap_or("").to_string();
@@ -129,7 +129,7 @@ pub fn find_case<'w>(world: &'w World, doc: &Value) -> Option<(&'w GInfo, usize)
 
 /// The regression tier: every file under /verif/replays/<property>/ is executed first.
 pub fn run_saved_replays(world: &World, ctx: &mut Ctx) -> Option<Value> {
-    let dir = std::path::Path::new(crate::common::VERIF_ROOT).join("replays").join(ctx.prop);
+    let dir = crate::common::verif_root().join("replays").join(ctx.prop);
     let mut files: Vec<_> = std::fs::read_dir(&dir).ok()?.flatten().map(|e| e.path()).filter(|p| p.extension().map(|x| x == "json").unwrap_or(false)).collect();
     files.sort();
     for f in files {
